@@ -114,6 +114,20 @@ def run_batch(pid, tier, cases, sc, out, tag="0"):
             h.close()
 
 
+_QUICK_CANON = None
+
+
+def full_sweeps_for(c, tier):
+    """Thorough tier: the complete per-byte sweeps run on the states of the quick space (with the larger size limit); the additional
+    states of the thorough space (all widths 1..64, more capacities and paddings) get the value spaces and the partial sweeps."""
+    global _QUICK_CANON
+    if tier == "quick" or tier.startswith("c14:"):
+        return True
+    if _QUICK_CANON is None:
+        _QUICK_CANON = {pycodec.canon(x) for x in pycodec.space("quick")}
+    return pycodec.canon(c) in _QUICK_CANON
+
+
 def sweep_limit(tier):
     if tier.startswith("c14:"):
         return -1  # C14 names the basis values; the sweeps belong to C04/C07
@@ -134,7 +148,7 @@ def _run_case(pid, tier, c, r, hs, hopts, out):
     out.cls("mode:" + mode)
     # ---- encode inputs
     enc_inputs = [(hs.image(r, leaves, v), ("value", v)) for v in vecs]
-    swept = row["size"] <= sweep_limit(tier)
+    swept = row["size"] <= sweep_limit(tier) and full_sweeps_for(c, tier)
     if swept:
         for img, li, p, b, bg in sweeps.storage_sweep(row, leaves):
             enc_inputs.append((img, ("storage", li, p, b, bg)))
@@ -174,7 +188,7 @@ def _run_case(pid, tier, c, r, hs, hopts, out):
     # ---- decode inputs
     wires = [ref.encode(c.msg, v, lay) for v in vecs]
     tags = [("value", v) for v in vecs]
-    if row["nbytes"] <= sweep_limit(tier):
+    if row["nbytes"] <= sweep_limit(tier) and full_sweeps_for(c, tier):
         for w, p, b, bg in sweeps.wire_sweep(row["nbytes"]):
             wires.append(w)
             tags.append(("wire", p, b, bg))
@@ -241,7 +255,7 @@ def main(pid, tier):
              "every storage byte of every non-bool leaf, backgrounds 0x00/0xFF) for encode, exhaustive wire sweep for decode; "
              "each input executed on the standard-mode executable and on four -O executables; non-trivial = input not all zero",
         exhaustive=True,
-        bound="traditional subset of SING(%s) u COMB(2) u TREE(%d) u HOMONYMS; full sweeps for structs/buffers <= %d bytes" % (
+        bound="traditional subset of SING(%s) u COMB(2) u TREE(%d) u HOMONYMS; full sweeps for structs/buffers <= %d bytes (thorough: on the states of the quick space; partial sweeps on the others)" % (
             tier, 4 if tier == "quick" else 5, sweep_limit(tier)),
         go_part=dict(states=c["go_states"], evaluations=c["go_evaluations"],
                      note="Go -O Encode/Decode bodies interpreted by bpmc/gofront (typed evaluation) on EXH/BASIS values, a typed per-byte value sweep "
